@@ -247,7 +247,11 @@ class Intrinsics:
                     cur.assume(r >= 0)
                 res = Iv(r)
             else:
-                res = Z(r, None, {"item_of": owner, "op": opname, "cellkind": kind, "cell_content": c})
+                res = Z(r, None, {"item_of": owner, "op": opname, "cellkind": kind, "cell_content": c,
+                                  "key": (a[0] if a else None), "cell_ref": ref})
+                if owner is not None and r.sort() == Val:
+                    # Inv.node: a reference stored in a node's container is a synced node of the node's family
+                    cur.assume(z3.Implies(smt.is_VRef(r), smt.isinstance_(r, "SyncedCollection")))
         if "new" in spec:
             new = spec["new"](c, a)
             viewnew = spec["new"](view, va) if owner is not None else None
@@ -282,6 +286,12 @@ class Intrinsics:
             return outs
         if isinstance(obj, TupleV) and isinstance(key, Const) and isinstance(key.v, int):
             return [(st, obj.items[key.v])]
+        if isinstance(obj, BuiltinV) and obj.name == "registry":
+            # SyncedCollection.registry[backend]: filled at class-creation time, read by reflection [E-ABC]
+            if not (isinstance(key, Const) and isinstance(key.v, str)):
+                raise Unsupported("registry subscript with a symbolic backend")
+            names = self.eng.R["registry"].get(key.v, [])
+            return [(st, TupleV([ClassV(self.eng.P.classes[n]) for n in names]))]
         if isinstance(obj, ObjV):
             return self.eng.call_method(st, obj, "__getitem__", [key], {})
         if isinstance(obj, Z):
@@ -435,10 +445,115 @@ class Intrinsics:
                                 eng.used_contracts.add("SyncedCollection._from_base.map")
                                 outs.extend(c.apply(eng, z, [recv, src], {"parent": par}))
                     return outs
+        if kind == "dict" and len(e.generators) == 1 and not e.generators[0].ifs:
+            g = e.generators[0]
+            el = e.value
+            if (isinstance(el, ast.Call) and isinstance(el.func, ast.Attribute) and el.func.attr == "_from_base"
+                    and isinstance(g.target, ast.Tuple) and len(g.target.elts) == 2
+                    and all(isinstance(t, ast.Name) for t in g.target.elts)
+                    and isinstance(e.key, ast.Name) and e.key.id == g.target.elts[0].id
+                    and isinstance(g.iter, ast.Call) and isinstance(g.iter.func, ast.Attribute)
+                    and g.iter.func.attr == "items" and not g.iter.args):
+                argexprs = list(el.args) + [k.value for k in el.keywords if k.arg == "data"]
+                parents = [k.value for k in el.keywords if k.arg == "parent"]
+                if (len(argexprs) == 1 and isinstance(argexprs[0], ast.Name) and argexprs[0].id == g.target.elts[1].id
+                        and len(parents) == 1 and isinstance(parents[0], ast.Name)):
+                    outs = []
+                    for (x, src) in eng.ev(g.iter.func.value, st):     # the mapping whose items are converted
+                        if isinstance(src, Raise):
+                            outs.append((x, src))
+                            continue
+                        for (y, recv) in eng.ev(el.func.value, x):
+                            for (z, par) in eng.ev(parents[0], y):
+                                c = eng.contracts.get("SyncedCollection._from_base.map")
+                                eng.used_contracts.add("SyncedCollection._from_base.map")
+                                outs.extend(c.apply(eng, z, [recv, src], {"parent": par, "$kind": Const("dict")}))
+                    return outs
+        if kind == "list" and len(e.generators) == 1 and len(e.generators[0].ifs) == 1:
+            r = self.filter_comprehension(eng, e, st)
+            if r is not None:
+                return r
         h = getattr(self, "comprehension_ext", None)
         if h is not None:
             return h(eng, e, st, kind)
         raise Unsupported("comprehension: " + ast.unparse(e))
+
+    # ------------------------------------------------------------------ value-semantic local containers
+    def is_local_container(self, st, name):
+        v = st.loc.get(name)
+        return isinstance(v, Z) and v.hint is None and v.meta.get("fresh_container") and not v.meta.get("escaped")
+
+    def local_setitem(self, st, cont, key, val):
+        """converted[key] = value on a container that lives only in a local variable."""
+        self.eng.note("[SPEC-BUILTIN]")
+        t = dict_set(cont.term, to_val(key), to_val(val))
+        meta = dict(cont.meta)
+        meta.pop("plain", None)
+        lv = cont.meta.get("lv", cont.term if cont.meta.get("plain") or cont.term.eq(dict_empty) else None)
+        if lv is not None:
+            meta["lv"] = dict_set(lv, self.iv(st, key), self.iv(st, val))
+        return Z(t, None, meta)
+
+    def local_method(self, st, cont, name, args):
+        self.eng.note("[SPEC-BUILTIN]")
+        f = {"append": list_append, "extend": list_extend}[name]
+        t = f(cont.term, to_val(args[0]))
+        meta = dict(cont.meta)
+        meta.pop("plain", None)
+        lv = cont.meta.get("lv", cont.term if cont.meta.get("plain") or cont.term.eq(list_empty) else None)
+        if lv is not None:
+            meta["lv"] = f(lv, self.iv(st, args[0]))
+        return Z(t, None, meta)
+
+    def filter_comprehension(self, eng, e, st):
+        """[x for x in <dict container> if x not in <mapping>]: the keys of the container that are not keys of the
+        mapping — a fresh list T with (trusted, [SPEC-BUILTIN]) pointwise characterisation
+             k in T  <=>  k in container and k not in mapping          (elements pairwise distinct)"""
+        g = e.generators[0]
+        cond = g.ifs[0]
+        if not (isinstance(e.elt, ast.Name) and isinstance(g.target, ast.Name) and e.elt.id == g.target.id
+                and isinstance(cond, ast.Compare) and len(cond.ops) == 1 and isinstance(cond.ops[0], ast.NotIn)
+                and isinstance(cond.left, ast.Name) and cond.left.id == g.target.id):
+            return None
+        outs = []
+        for (x, src) in eng.ev(g.iter, st):
+            if isinstance(src, Raise):
+                outs.append((x, src))
+                continue
+            if self.kind_of(src) != "dict":
+                return None
+            for (y, other) in eng.ev(cond.comparators[0], x):
+                if isinstance(other, Raise):
+                    outs.append((y, other))
+                    continue
+                rs = self.cell_op(y, src, "dict", "iter", [])
+                z, _ = rs[-1]
+                c = self.cell_content(z, src)
+                o = to_val(other)
+                T = smt.fresh("filtered")
+                from contracts.core import is_mapping
+                member = lambda k: z3.And(dict_has(c, k), z3.Not(z3.If(is_mapping(o), dict_has(o, k),
+                                                                       F("plain_contains", Val, Val, BoolS)(o, k))))
+                fidx = F("filter_index", Val, Val, IntS)
+                from .loops import seq_at, plain_len
+
+                def key_facts(k):
+                    j = fidx(T, k)
+                    return [z3.Implies(member(k), z3.And(j >= 0, j < plain_len(T), seq_at(T, j) == k))]
+                z.assume(plain_len(T) >= 0)
+                outs.append((z, Z(T, None, {"fresh_container": True, "plain": True,
+                                            "filter": {"container": c, "other": o, "member": member,
+                                                       "elem_facts": lambda ek: [member(ek)], "key_facts": key_facts}})))
+        return outs
+
+    def set_view(self, st, owner, newview):
+        """Ghost update of a node's plain view, with [L-COMP] for the root of an attached nested node."""
+        n = z3.IntVal(owner.addr)
+        st.upd("View", n, newview)
+        root = self.root_of(st, owner)
+        if root.addr != owner.addr and st.rec(owner).tag.startswith("node"):
+            rn = z3.IntVal(root.addr)
+            st.upd("View", rn, put_in(st.sel("View", rn), VRef(n), newview))
 
     def concrete_iter(self, st, it):
         if isinstance(it, TupleV):
@@ -708,6 +823,49 @@ class Intrinsics:
     def annotate_field(self, st, obj, name, val):
         return val
 
+    def on_field_store(self, eng, st, obj, name, val):
+        """`node._data = <container>`: the node is re-pointed at another built-in container object."""
+        rec = st.rec(obj)
+        if name != "_data" or not rec.tag.startswith("node") and not rec.tag.startswith("new:"):
+            return val
+        if not any(k.name == "SyncedCollection" for k in rec.cls.mro):
+            return val
+        kind = eng.R["classes"].get(rec.cls.name, {}).get("kind")
+        if kind is None:
+            return val
+        n = z3.IntVal(obj.addr)
+        if isinstance(val, Z) and val.hint in ("dict", "list"):
+            # an existing container object (shared-memory buffer): alias it
+            newv = Z(val.term, kind, dict(val.meta, owner=obj))
+            view = st.sel("View", n)
+            src_owner = val.meta.get("owner")
+            if src_owner is not None:
+                view = st.sel("View", z3.IntVal(src_owner.addr))
+            elif "view_term" in val.meta:
+                view = val.meta["view_term"]
+            st.upd("View", n, view)
+            st.event("data-rebound", obj.addr, "alias")
+            for h in eng.hooks:
+                h("data-rebound", st, obj=obj, how="alias")
+            return newv
+        # a freshly built container value: a new container object
+        eng.note("[N-VIEW]")
+        d = smt.fresh("newcell", IntS)
+        st.assume(d >= st.g["Alloc"])
+        st.g["Alloc"] = d + 1
+        t = to_val(val)
+        st.upd("Cell", d, t)
+        st.upd("View", n, self.iv(st, val))
+        root = self.root_of(st, obj)
+        if root.addr != obj.addr and rec.tag.startswith("node"):
+            # [L-COMP] applies to ATTACHED nodes only; a node under construction is not yet part of any tree
+            rn = z3.IntVal(root.addr)
+            st.upd("View", rn, put_in(st.sel("View", rn), VRef(n), st.sel("View", n)))
+        st.event("data-rebound", obj.addr, "new-container")
+        for h in eng.hooks:
+            h("data-rebound", st, obj=obj, how="new-container")
+        return Z(VRef(d), kind, {"owner": obj})
+
     # ------------------------------------------------------------------ attributes of values
     def value_attr(self, eng, st, obj, name):
         if isinstance(obj, Z) and name == "ndim":
@@ -717,7 +875,8 @@ class Intrinsics:
             if name in ("__enter__", "__exit__", "acquire", "release"):
                 return [(st, BuiltinV("lock." + name, recv=obj))]
         if isinstance(obj, Z):
-            if obj.hint == "node" or obj.meta.get("maybe_node"):
+            if obj.hint == "node" or obj.meta.get("maybe_node") or (obj.meta.get("item_of") is not None
+                                                                       and name in eng.virtual):
                 c = eng.virtual.get(name)
                 if c is None:
                     raise Unsupported(f"call of {name} on a node of unknown class without a virtual contract")
@@ -1004,6 +1163,19 @@ class Intrinsics:
 
     def b_pydict_items(self, eng, st, fn, args, kwargs):
         return [(st, TupleV([TupleV([k, v]) for k, v in fn.recv.pairs]))]
+
+    def b_numcodecs_JSON(self, eng, st, fn, args, kwargs):
+        return [(st, Z(smt.fresh("json_codec"), "ext", {"plain": True}))]
+
+    def b_frozenset(self, eng, st, fn, args, kwargs):
+        if not args:
+            return [(st, Const(frozenset()))]
+        v = args[0]
+        if isinstance(v, TupleV) and all(isinstance(x, Const) for x in v.items):
+            return [(st, Const(frozenset(x.v for x in v.items)))]
+        if isinstance(v, Const) and isinstance(v.v, (tuple, frozenset)):
+            return [(st, Const(frozenset(v.v)))]
+        raise Unsupported("frozenset() of " + repr(v))
 
     def b_tuple(self, eng, st, fn, args, kwargs):
         v = args[0]
